@@ -23,6 +23,7 @@ from harness.lib import xl_c04
 from harness.lib.wire_common import vr
 
 COMPONENTS = ["wire"]
+CONSTS = ["wire", "wiregen"]  # "wiregen": the model terms regenerated from the AST (harness/consts/wiregen.py), proved equal to the hand-written model
 TRUSTED = [
     "the Kafka protocol grammar as written in Afkak/Wire/Spec.lean (from the protocol guide) and, independently, in harness/sim/refcodec.py; the two are cross-checked on every run",
     "Afkak.Wire.Crc.crc32 (table-driven CRC-32 used to RUN the model) is compared with zlib.crc32 on every run; the theorems hold for any checksum function",
